@@ -648,6 +648,30 @@ func genG03(repo string, w *Out) error {
 	}
 	w.DefN("client_reader_size", uint64(crSize))
 	w.DefBool("client_reader_head_budget", limited)
+	// net/http's transport as forwarder builds it: the size of the reader the 101 head is parsed with
+	ht, err := Parse(repo, "http_transport.go")
+	if err != nil {
+		return err
+	}
+	nt, err := ht.Func("NewHTTPTransport")
+	if err != nil {
+		return err
+	}
+	trBuf := int64(4096) // net/http's default when ReadBufferSize is not set
+	ast.Inspect(nt.Body, func(x ast.Node) bool {
+		if kv, ok := x.(*ast.KeyValueExpr); ok && ht.Src(kv.Key) == "ReadBufferSize" {
+			if v, e := g03EvalInt(ht, kv.Value); e == nil {
+				trBuf = v
+			} else {
+				trBuf = -1
+			}
+		}
+		return true
+	})
+	if trBuf <= 0 {
+		return fmt.Errorf("http_transport.go NewHTTPTransport: ReadBufferSize is not a constant")
+	}
+	w.DefN("transport_read_buffer", uint64(trBuf))
 	w.DefBool("tunnel_drain_first", df1 && df2)
 	w.DefBool("up_copier_reads_bufio", ub1 || ub2)
 
